@@ -38,6 +38,8 @@ func c46(r *core.Report, p *core.Prog, thorough bool) {
 	r.Rule("C46.capacity", "Add: every path from the insertion to the exit passes `if len(Buffer) > max { Buffer = Buffer[:max] }`")
 	r.Rule("C46.repeat", "Add returns without inserting only under idx>0 && Buffer[idx-1].Data == data")
 	r.Rule("C46.front", "First/Pop return Buffer[0] only when len(Buffer) != 0; Pop then stores Buffer[1:]")
+	r.Rule("C46.consumer", "a block leaves the buffer only by being handed out: at every call of OrderBuffer.Pop outside the package the returned item is used (a consumer that peeks with First and then discards Pop's result loses whatever lower-round block was added in between)")
+	c46Consumer(r, p)
 	buf := p.Field(pkgOB, "OrderBuffer", "Buffer")
 	mu := p.Field(pkgOB, "OrderBuffer", "mu")
 	max := p.Field(pkgOB, "OrderBuffer", "max")
@@ -585,4 +587,40 @@ func localFieldValue(v ssa.Value) ssa.Value {
 		return nil
 	}
 	return val
+}
+
+// c46Consumer: every Pop call site outside the package uses the item it removes.
+func c46Consumer(r *core.Report, p *core.Prog) {
+	const rule = "C46.consumer"
+	pop := p.Func("(*" + pkgOB + ".OrderBuffer).Pop")
+	if pop == nil {
+		r.Unresolved(rule, "OrderBuffer.Pop")
+		return
+	}
+	n := 0
+	ord := map[string]int{}
+	for _, fn := range p.ModFuncs() {
+		if fn.Pkg.Pkg.Path() == pkgOB {
+			continue
+		}
+		for _, cs := range core.CallsIn(fn, false, func(c *ssa.CallCommon) bool { return core.StaticCallee(c) == pop }) {
+			n++
+			used := false
+			if call, ok := cs.Instr.(*ssa.Call); ok {
+				for _, ref := range *call.Referrers() {
+					if ex, ok := ref.(*ssa.Extract); ok && ex.Index == 0 {
+						for _, r2 := range *ex.Referrers() {
+							if _, dbg := r2.(*ssa.DebugRef); !dbg {
+								used = true
+							}
+						}
+					}
+				}
+			}
+			key := "pop-site:" + core.EnclosingNamed(fn).String()
+			ord[key]++
+			r.Check(used, rule, fmt.Sprintf("%s#%d", key, ord[key]), p.Pos(cs.Pos()), "the item removed by Pop must be the one the caller goes on to process")
+		}
+	}
+	r.Floor(rule, "OrderBuffer.Pop call sites outside the package", n, 1)
 }
